@@ -470,11 +470,13 @@ func (c *Collection) CreateIndex(name string, config IndexConfig) (string, error
 		}
 	}
 
-	// return if existing index is equal
+	// return if existing index is equal, reject a different definition under
+	// the same name (it would otherwise silently replace the existing index)
 	if index, ok := c.Indexes[name]; ok {
 		if config.Equal(index.Config()) {
 			return name, nil
 		}
+		return "", fmt.Errorf("existing index %q has a different definition", name)
 	}
 
 	// check duplicate
